@@ -48,7 +48,7 @@ CHECKS = {
          "go/types is the oracle. Exhaustive only for the stated universe and constant list (chosen to contain every boundary of every integer and float kind).",
          "exhaustive small-scope enumeration (finite grid) against go/types; known deviations pinned point by point"),
  "C04": ("exploration",
-         "Generated constant-expression trees (every untyped kind, typed constants of every basic kind, boundary and > 64-bit values, all operators, shifts with every kind of count, len/cap/min/max/complex/real/imag/unsafe.*, conversions, non-constant look-alikes) are placed in const declarations, iota blocks, var initialisers and array lengths and driven through the builder with the per-subexpression tracer: a constant expression go/types rejects must be rejected; otherwise the builder's constant value must be present exactly when go/types has one and be exactly equal, and declared constants and array lengths must agree. Deviations of the tree (typed-constant folding, conversions keeping the operand's value, builtin constant-ness, big-number typing of the XGo configuration) are listed findings.",
+         "Generated constant-expression trees (every untyped kind, typed constants of every basic kind, boundary and > 64-bit values, all operators, shifts with every kind of count, len/cap/min/max/complex/real/imag/unsafe.*, conversions, non-constant look-alikes) are placed in const declarations, iota blocks, var initialisers and array lengths and driven through the builder with the per-subexpression tracer: a constant expression go/types rejects must be rejected; otherwise the builder's constant value must be present exactly when go/types has one and be exactly equal, and declared constants and array lengths must agree. Deviations of the tree (typed-constant folding, conversions keeping the operand's value, builtin constant-ness, big-number typing of the XGo configuration) are listed findings. Plus const blocks whose specs (1-2 names, expressions over iota, implicit repetitions) are resolved in a random order through the position API (NewPos / NewAt / NextAt): every constant the builder declares must have the value go/types computes for the written block.",
          "DESIGN.md §7 C04",
          "go/types and go/constant are the oracle; both sides compute with go/constant, so agreement in its last bits is by construction. unsafe sizes follow go/types' gc sizes for the host.",
          "property-based testing: grammar-based constant expressions, per-subexpression differential against go/types/go/constant"),
